@@ -2,7 +2,7 @@ import itertools
 from .registry import inst
 
 KINDS = ['proj.Polygon', 'hyp.Polygon', 'hyp.Segment', 'hyp.TangentVector']
-OPS = ['copy', 'reconstruct', 'apply', 'reshape', 'flatten', 'index', 'setitem', 'stack', 'combine', 'astype']
+OPS = ['copy', 'reconstruct', 'apply', 'reshape', 'flatten', 'index', 'index_units', 'setitem', 'stack', 'combine', 'astype']
 QUERIES = ['coords:poincare', 'coords:halfspace', 'coords:hyperboloid', 'coords:klein', 'coords:projective', 'distance', 'tangent', 'segment:poincare',
            'segment:halfspace', 'tv', 'origin_to']
 
